@@ -50,6 +50,21 @@ def main():
                 try:
                     after = f.getinfo("/t.txt", namespaces=["details"]).raw["details"]
                     rec["unchanged"] = all(after[k] == before[k] for k in ("created", "modified", "accessed"))
+                    # the same instant as a LATER field of a call whose earlier fields are fine: rejected as a whole, nothing taken over (C17-m7)
+                    e0 = f.fs.root_dir.get_entry("/t.txt")
+                    raw0 = (e0.crtdate, e0.crttime, e0.wrtdate, e0.wrttime, e0.lstaccessdate)
+                    for mixed in ({"modified": 1500000000, "accessed": t}, {"created": 1500000000, "modified": t}, {"created": 1400000000, "modified": 1400000002, "accessed": t}):
+                        try:
+                            f.setinfo("/t.txt", {"details": mixed})
+                            rec.setdefault("mixed_accepted", []).append(sorted(mixed))
+                        except Exception:  # noqa
+                            pass
+                        e1 = f.fs.root_dir.get_entry("/t.txt")
+                        now = f.getinfo("/t.txt", namespaces=["details"]).raw["details"]
+                        if (e1.crtdate, e1.crttime, e1.wrtdate, e1.wrttime, e1.lstaccessdate) != raw0 or any(now[k] != before[k] for k in ("created", "modified", "accessed")):
+                            if not rec.get("mixed_accepted"):
+                                rec["mixed_changed"] = sorted(mixed)
+                            break
                     f.setinfo("/t.txt", {"details": {"modified": 1600000000}})      # the entry must still be writable
                     rec["still_writable"] = True
                 except Exception as e2:  # noqa
